@@ -51,7 +51,10 @@ type Profile struct {
 	IndexedLastPct int // percentage of queries forced to end on an indexed path
 	AndOnlyPct     int // percentage of chains that use And only
 	BadQueryPct    int // percentage of queries made unevaluable on purpose
-	FixedCfg       *Config
+	// no two distinct batch members with one uuid (C05/C06: the per-object
+	// before/after oracle would need the intermediate member values)
+	NoCopyItems bool
+	FixedCfg    *Config
 }
 
 // G carries the pools of values already used in the case, so that later ops
@@ -624,6 +627,9 @@ func (g *G) Sets() []FieldSet {
 func (g *G) Items(max int) []BatchItem {
 	n := g.uni(max+1, "nitems")
 	kinds := []string{"new", "new", "new", "upd", "upd", "same", "copy", "newuuid"}
+	if g.p.NoCopyItems {
+		kinds = []string{"new", "new", "new", "upd", "upd", "same", "newuuid"}
+	}
 	if g.pct("other") < 12 {
 		kinds = append(kinds, "other", "otheruuid")
 	}
